@@ -53,6 +53,11 @@ def run(ctx):
     ctx.tlc_mc("Runner", "MC_Runner", workers=8, timeout=900)
     ctx.tlc_mc("Runner", "MC_Runner_bug", workers=4, timeout=600, expect_violation="NoEarlyCancel")
     ctx.tlc_mc("Runner", "MC_Runner_sigint", workers=8, timeout=900)
+    # the chunk loop around the runner (one socket, one filter, one exit delay per pass of at most 200 port ranges), with the two seeded
+    # regressions as non-vacuity checks
+    ctx.tlc_mc("MC_ScanRun", "MC_ScanRun", workers=8, timeout=900)
+    ctx.tlc_mc("MC_ScanRun", "MC_ScanRun_delayOnlyLast", workers=4, timeout=600, expect_violation="LateReplyReported")
+    ctx.tlc_mc("MC_ScanRun", "MC_ScanRun_timerAtStart", workers=4, timeout=600, expect_violation="DelayHonoured")
     ta, tb = pkt_traces(ctx, 8 if quick else 60, 0, 4 if quick else 8, "c16")
     n1, _ = vf.validate_runs(ctx, "RunnerTrace", tb, keyfn=keyfn, label="runner timing")
     vf.validate_runs(ctx, "PacketScanObsTrace", ta, keyfn=c07.keyfn, label="runner pipeline")
@@ -60,8 +65,11 @@ def run(ctx):
     for r0 in vf.split_runs(vf.read_ndjson(tb))[:4]:
         ctx.sample(r0)
     # socket-level tier: --exit-delay of every packet command, per chunk of a chunked port scan, late replies on the wire
-    n3, rej = wt.run_wire(ctx, select=lambda s: s["expect"]["kind"] == "packet", label="c16w", focus="delay")
+    n3, rej = wt.run_wire(ctx, select=lambda s: s["expect"]["kind"] in ("packet", "packetbusy"), label="c16w", focus="delay")
     wt.report(ctx, "C16", rej)
+    # the same runs as event sequences (probe, injected frame, exit) against the chunk-loop state machine: passes in order, each closed no
+    # earlier than its delay after its last probe, replies inside the window printed, nothing else printed
+    wt.scanrun_validate(ctx, "C16", "c16s")
     n4, rej = wt.run_wire(ctx, select=lambda s: s["expect"]["kind"] == "packet" and "chunked" in s["name"], label="c16r", focus="reply")
     wt.report(ctx, "C16", rej)
     ctx.assumptions += ["upper bound on exit: 3 s after the run context was observed cancelled",
